@@ -80,8 +80,12 @@ CLAIMED = {
         text="Decides the table clause of C18 exhaustively: every entry of the Base16 (256), Base32hex "
         "(128+32) and Base64 (128+64) alphabets, as evaluated by the compiler, is checked: decode is the "
         "inverse of encode, encode equals RFC 4648, nothing else decodes; all decoder/encoder siblings "
-        "read those same constants. The incremental state machines, padding and chunking independence "
-        "are value-level and not decided.",
+        "read those same constants. Sibling agreement of the incremental decoders on their finite state "
+        "tables: Base32 tail lengths rejected == {1,3,6} (derived from 5n mod 8) in both decoders with "
+        "floor(5n/8) octets emitted; Base64 end-of-group transitions (state 0 iff the 4th symbol is data, "
+        "end-of-data iff padding) identical in Decoder::push and SymbolConverter::process_char, input "
+        "after end-of-data rejected, unfinished group rejected. Bit-packing values and chunking "
+        "independence are value-level and not decided.",
         design_ref="DESIGN.md §4 C18",
     ),
 }
